@@ -436,6 +436,76 @@ impl Space for Big {
     }
 }
 
+/// The whole 16-bit versym domain: for every value v the symbol must resolve to the record whose
+/// index is v & 0x7fff (one needed version and one definition carry that index), hidden = bit 15.
+struct VersymDomain;
+impl Space for VersymDomain {
+    fn name(&self) -> String {
+        "every versym value 0..=0xffff (256 per case): a verneed aux and (separately) a verdef carry index v & 0x7fff; requirement / definition must resolve with hidden = bit 15; 2 encodings".into()
+    }
+    fn size(&self) -> u64 {
+        256 * 2
+    }
+    fn describe(&self, idx: u64) -> Value {
+        json!({"versym_values": format!("{:#x}00..={:#x}ff", idx % 256, idx % 256), "encoding": ENCS[if idx / 256 == 0 { 2 } else { 1 }].name()})
+    }
+    fn run(&self, idx: u64, out: &mut Outcome) {
+        let enc = ENCS[if idx / 256 == 0 { 2 } else { 1 }];
+        let mut dig = Fnv::new();
+        for lo in 0..256u64 {
+            let v = (((idx % 256) << 8) | lo) as u16;
+            let ndx = v & 0x7fff;
+            for as_def in [false, true] {
+                let m = VerModel {
+                    needs: if as_def { vec![] } else { vec![Need { file: b"lib.so".to_vec(), auxes: vec![Aux { name: b"V_OTHER".to_vec(), hash: 1, flags: 0, other: ndx ^ 0x55 }, Aux { name: b"V_THIS".to_vec(), hash: 2, flags: 4, other: ndx }] }] },
+                    defs: if as_def { vec![Def { ndx: ndx ^ 0x2a, flags: 0, hash: 3, names: vec![b"D_OTHER".to_vec()] }, Def { ndx, flags: 1, hash: 4, names: vec![b"D_THIS".to_vec(), b"D_PARENT".to_vec()] }] } else { vec![] },
+                    versym: vec![0, v, v ^ 0x8000],
+                };
+                let s = sections(&m, enc, VerLayout::Contiguous, VerLayout::AuxAfterHeads, true);
+                let ctx = format!("{} versym {v:#x} as {}", enc.name(), if as_def { "definition" } else { "requirement" });
+                judge("SymbolVersionTable::new", &ctx, &m, via_new(&m, &s, enc), out, &mut dig);
+            }
+        }
+        out.nontrivial(dig.get() ^ idx);
+    }
+}
+
+/// Sections padded to lengths around 2^16 and 2^19 (+ a multiple of 2^19): counts or offsets
+/// derived from the section length must not wrap.
+struct Padded;
+impl Space for Padded {
+    fn name(&self) -> String {
+        "2 needed files x 2 aux, 2 definitions x 3 names in sections padded with trailing garbage to lengths 2^16+d, 2^19+d and 2^20+d for d in 0..256 step 4; 5 layouts; ELF64-LSB and ELF32-MSB".into()
+    }
+    fn size(&self) -> u64 {
+        3 * 64 * 5 * 2
+    }
+    fn describe(&self, idx: u64) -> Value {
+        let d = unmix(idx, &[3, 64, 5, 2]);
+        let plen = [65536u64, 524288, 1048576][d[0] as usize] + 4 * d[1];
+        json!({"padded_length": plen, "layout": format!("{:?}", LAYOUTS[d[2] as usize]), "encoding": ENCS[if d[3] == 0 { 2 } else { 1 }].name()})
+    }
+    fn run(&self, idx: u64, out: &mut Outcome) {
+        let d = unmix(idx, &[3, 64, 5, 2]);
+        let len = ([65536u64, 524288, 1048576][d[0] as usize] + 4 * d[1]) as usize;
+        let enc = ENCS[if d[3] == 0 { 2 } else { 1 }];
+        let m = make_model(&(vec![2, 2], vec![3, 3]), 0);
+        let mut s = sections(&m, enc, LAYOUTS[d[2] as usize], LAYOUTS[d[2] as usize], false);
+        s.verneed.resize(len, 0xEE);
+        s.verdef.resize(len, 0xEE);
+        let ctx = format!("{} sections padded to {} bytes, layout {:?}", enc.name(), len, LAYOUTS[d[2] as usize]);
+        let mut dig = Fnv::new();
+        let r = judge("SymbolVersionTable::new", &ctx, &m, via_new(&m, &s, enc), out, &mut dig);
+        if d[1] % 16 == 0 {
+            let bytes = file_image(&m, &s, enc, 0, false);
+            judge("ElfBytes::symbol_version_table", &ctx, &m, via_file(&m, &bytes), out, &mut dig);
+        }
+        if r > 0 {
+            out.nontrivial(dig.get() ^ idx);
+        }
+    }
+}
+
 pub fn build(tier: Tier) -> CheckDef {
     let (f, a, d) = tier.pick((3, 2, 2), (4, 3, 3));
     CheckDef {
@@ -443,7 +513,7 @@ pub fn build(tier: Tier) -> CheckDef {
         level: "model_checking",
         rule: "complete enumeration of small version models (every shape of needed files/aux and definitions/names up to the bound, index assignments, record layouts incl. non-contiguous and interleaved, separate string tables, section orders) built by the reference builder; every symbol index 0..n+2 is queried for its requirement and definition through three access paths and compared with the model's ground truth (file, name, hash, flags, ordered names, hidden bit). non-trivial = model for which at least one record is returned".into(),
         assumptions: vec!["record layouts are forward-linked (next/aux offsets are unsigned)".into()],
-        spaces: vec![Box::new(Models { maxf: f, maxa: a, maxd: d }), Box::new(Big)],
+        spaces: vec![Box::new(Models { maxf: f, maxa: a, maxd: d }), Box::new(Big), Box::new(VersymDomain), Box::new(Padded)],
         abort_is_violation: false,
         hang_is_violation: true,
         exhaustive: true,
